@@ -106,7 +106,8 @@ def check_file(ctx, model, nptdms, segs, data, stats, cut=None):
         acc = {}
         total = 0
         try:
-            for c in ch.data_chunks():
+            # draw the whole stream first: chunks already delivered must not change when later chunks are read
+            for c in list(ch.data_chunks()):
                 raw = c._raw_data
                 if c.offset != total:
                     vio.append(Violation("DAQmx chunk offset %d but %d values delivered before" % (c.offset, total), dict(kind="daqmx-chunks", file=data.hex(), path=p.hex())))
